@@ -202,6 +202,8 @@ def spurious_families(pools=(0, 1)):
         # a stale wake-up arrives while a try_sync / immediate sync closure is running on the (otherwise idle) queue
         out.append(make('spur_during_T_p%d' % p, 1, p, 1, [FD(1, aw=[1], then='detach'), BARRIER(), BARRIER(), T(1), D(1), S(1), T(1)], [BARRIER(), FIRE(1), BARRIER(), SPUR(1)]))
         out.append(make('spur_during_S_p%d' % p, 1, p, 1, [FD(1, aw=[1], then='detach'), BARRIER(), BARRIER(), S(1), D(1), S(1)], [BARRIER(), FIRE(1), BARRIER(), SPUR(1)]))
+        # exactly two wake-ups (the event and a stale repeat), at any position relative to the poll that suspends
+        out.append(make('FDaw_Fire_Spur_p%d' % p, 1, p, 1, [FD(1, aw=[1], then='await'), S(1)], [FIRE(1), SPUR(1)]))
     for p in (1, 2):
         out.append(make('spur_FDdet_D_S_p%d' % p, 1, p, 1, [FD(1, aw=[1], then='detach'), D(1)], [SPUR(1), FIRE(1)], [S(1)]))
         out.append(make('spur_FD2aw_p%d' % p, 1, p, 2, [FD(1, aw=[1, 2], then='await')], [FIRE(1), SPUR(1), FIRE(2)]))
@@ -268,6 +270,10 @@ def fsync_families(pools=(0, 1, 2)):
         # the awaiting task becomes the queue's runner and an earlier operation goes pending inside its drain
         out.append(make('FDdet_g_FSaw_Fire_p%d' % p, 1, p, 1, [FD(1, aw=[1], then='detach'), FS(1, then='await'), S(1)], [FIRE(1)]))
         out.append(make('AF_g_FSaw_Fire_T_p%d' % p, 1, p, 1, [FD(1, aw=[1], then='detach'), FS(1, then='await')], [FIRE(1), T(1)]))
+    for p in pools:
+        # an operation scheduled between the return of future_sync and the first poll of its future stays behind the reserved slot
+        out.append(make('FS_D_AW_S_p%d' % p, 1, p, 0, [FS(1, label='f'), D(1), AW('f'), S(1)]))
+        out.append(make('D_FS_FD_AW_p%d' % p, 1, p, 0, [D(1), FS(1, label='f'), FD(1, then='detach'), AW('f')], [T(1)]))
     for p in (1, 2):
         out.append(make('FSaw_g_D_Fire_p%d' % p, 1, p, 1, [FS(1, aw=[1], then='await'), D(1)], [FIRE(1)]))
         out.append(make('D_FSdrop_S_p%d' % p, 1, p, 0, [D(1), FS(1, then='drop'), S(1)]))
@@ -397,6 +403,7 @@ def for_property(prop, tier, seed=0):
     quick = tier == 'quick'
     if prop in ('C01', 'C02'):
         fam = core_mix((0, 1) if quick else (0, 1, 2)) + future_mix((0, 1) if quick else (0, 1, 2)) + parked_drainer_families()[1:]
+        fam += [s for s in fsync_families((0, 1) if quick else (0, 1, 2)) if s['name'].startswith(('FS_D_AW', 'D_FS_FD_AW'))]
         if not quick:
             fam += three_thread((0, 1, 2))
     elif prop == 'C03':
